@@ -183,7 +183,13 @@ impl Disk
     fn get_vtoc_constants(&mut self) -> Result<VolumeConstants,DYNERR> {
         self.open_vtoc_buffer()?;
         if let Some(vtoc) = self.maybe_vtoc.as_ref() {
-            return Ok(vtoc.get_constants());
+            let vconst = vtoc.get_constants();
+            // a track/sector list sector holds 122 pairs
+            if vconst.max_pairs==0 || vconst.max_pairs>122 {
+                log::error!("VTOC gives {} pairs per track/sector list",vconst.max_pairs);
+                return Err(Box::new(Error::IOError));
+            }
+            return Ok(vconst);
         }
         panic!("VTOC buffer failed to open");
     }
